@@ -11,7 +11,7 @@
    same directory with any capacities Q, M >= 1 and any size limit, a directory that cannot be opened,
    foreign files appearing between generations.  The vocabulary (entered, is_orig, taken ...) is Spec/BufferSpec.v. *)
 From SV Require Import Model.Common Model.FileWrite Model.Buffer Spec.BufferSpec
-     Proofs.FileWriteProofs Proofs.BufferInv Proofs.BufferTheorems Proofs.BufferExamples.
+     Proofs.FileWriteProofs Proofs.BufferInv Proofs.BufferTheorems Proofs.BufferExamples Proofs.DrainProofs.
 From Coq Require Import Sorting.Sorted.
 
 (* Conservation.  When Destroy has completed (feeder stopped) and the consumers have reported every chunk they
@@ -33,6 +33,21 @@ Theorem C03_conservation :
   m_consumed (st_met s) = Z.of_nat (length (g_confirmed g)).
 Proof. exact conservation_lemma. Qed.
 Print Assumptions C03_conservation.
+
+(* Across generations: what a generation retained is what the next one delivers.  After Destroy has completed, a
+   retained chunk that was given to Accept with (non-empty) bytes is - with exactly those bytes - among what a
+   consumer receives after the next start-up, on the schedule "feeder runs, consumer takes and confirms one at a
+   time", provided the new queue has room for all chunk files.  (matchf ".id" = false: the scan skips that name.) *)
+Theorem C03_retained_delivered_next_generation :
+  forall matchf dirsize, matcher_ok matchf -> matchf id_file_name = false ->
+  forall s Q M maxb x b0 d b, reachable matchf dirsize s -> settled s ->
+  In x (g_retained (st_gh s)) -> In (x, b0 :: d, b) (g_acc (st_gh s)) ->
+  (length (dir_names (st_dir s)) <= Q)%nat -> (1 <= Q)%nat -> (1 <= M)%nat ->
+  exists evs s',
+    run matchf dirsize s (ERestart Q M maxb true :: ERegister :: evs) = Some s' /\
+    In (x, Some (b0 :: d)) (received s').
+Proof. exact retained_is_delivered_after_restart. Qed.
+Print Assumptions C03_retained_delivered_next_generation.
 
 (* The same accounting holds at every moment of every run: the chunks in flight (queue, feeder, window,
    consumers) and the three classes partition what entered. *)
